@@ -5,6 +5,7 @@ package props
 import (
 	"fmt"
 	"math"
+	"os"
 	"testing"
 
 	"verif/harness/bq"
@@ -95,9 +96,9 @@ func (c c13Case) base() bq.Query {
 	if c.Grouped && len(all) > 0 {
 		q.Proj = append(q.Proj, bq.Proj{Binding: all[0]})
 		q.GroupBy = []string{all[0]}
-		q.Proj = append(q.Proj, bq.Proj{Binding: all[len(all)-1], Alias: "?n", Op: "count"})
+		q.Proj = append(q.Proj, bq.Proj{Binding: all[len(all)-1], Alias: "?cnt", Op: "count"})
 		if len(all) > 1 {
-			q.Proj = append(q.Proj, bq.Proj{Binding: all[1], Alias: "?d", Op: "countd"})
+			q.Proj = append(q.Proj, bq.Proj{Binding: all[1], Alias: "?dst", Op: "countd"})
 		}
 		return q
 	}
@@ -356,6 +357,9 @@ func checkC13(ctx *pbt.Ctx, c c13Case) error {
 	bres := bout.Resp.Results[0]
 	if bres.Stage != "ok" || bres.Panic != "" {
 		ctx.Label("base-query-fails(C03/C11)")
+		if os.Getenv("DBG_BASE") != "" {
+			return fmt.Errorf("base query %q fails: %s %s %s", base.String(), bres.Stage, bres.Err, bres.Panic)
+		}
 		return nil
 	}
 	V := rowEnvs(bres)
